@@ -28,10 +28,10 @@ def run(patch, props, label):
             shutil.rmtree(os.path.join(V, "out", prop + "_" + os.path.basename(d)), ignore_errors=True)
 args = sys.argv[1:]
 if args and args[0] == "--patch":
-    run(args[1], [args[3]], os.path.basename(os.path.dirname(args[1])) or args[1])
+    run(os.path.abspath(args[1]), [args[3]], os.path.basename(os.path.dirname(args[1])) or args[1])
 else:
     for sid in sorted(os.listdir(os.path.join(V, "seeded"))):
         if args and sid not in args:
             continue
         meta = json.load(open(os.path.join(V, "seeded", sid, "meta.json")))
-        run(os.path.join(V, "seeded", sid, "patch.diff"), [meta["property"]], sid)
+        run(os.path.join(V, "seeded", sid, "patch.diff"), meta.get("check_props", [meta["property"]]), sid)
